@@ -326,6 +326,7 @@ def run_check(run, tier):
     # "the process that the dump itself declares": the thread map of the file reaches the tables word for word (unsigned ids,
     # the name up to its NUL) - the clauses of C02 / C03 that say so, discharged again under this property's name
     from checks import c02, c03
+    c02.verify_set_thread_map(run, tier, prefix_root='C14')        # every entry of the map reaches the tables (pid 0 included), later entries win
     c02.verify_parse_v2(run, tier, wf=True, prefix='C14/parse_v2', only=('threadmap.', '/supported', '/noraise'))
     c03.verify_chunk_loops(run, tier, wf=True, prefix='C14/parse_v3', only=('threadmap.', '/supported', '/noraise'))
     out = native({'kind': 'color_search', 'seed': run.seed, 'budget': 60 if tier == 'quick' else 600}, timeout=600)
